@@ -213,6 +213,14 @@ func drawC19a(t *rapid.T) *gen.SchedWorld {
 			np.Spec.Limits = v1.Limits{corev1.ResourceCPU: resource.MustParse(rapid.SampledFrom([]string{"0", "1", "2", "4", "8"}).Draw(t, fmt.Sprintf("c19_limit%d", i)))}
 		}
 	}
+	// some pools are not Ready (NodeClass not ready / not known yet, or never reconciled): they must not receive pods
+	// however heavy they are; at least one pool stays ready
+	w.PoolReady = map[string]string{}
+	for i, np := range w.Pools {
+		if len(w.PoolReady) < len(w.Pools)-1 && rapid.IntRange(0, 5).Draw(t, fmt.Sprintf("c19_unready%d", i)) == 0 {
+			w.PoolReady[np.Name] = rapid.SampledFrom([]string{"unknown", "unknown", "false", "none"}).Draw(t, fmt.Sprintf("c19_unreadyWhy%d", i))
+		}
+	}
 	return w
 }
 
@@ -361,6 +369,9 @@ func execC19a(s *gen.SchedWorld, c *ev.Ctx) {
 	for _, nc := range res.NewNodeClaims {
 		x := b.Pools[nc.NodePoolName]
 		if x == nil {
+			if u := b.Unready[nc.NodePoolName]; u != nil {
+				c.Violate("weight:not-ready-pool-used", "NodeClaim opened in pool %s (weight %d) for pods %s, but that pool is not Ready (%s)", u.Name, weightOf(u), shortPods(nc.Pods), s.PoolReady[u.Name])
+			}
 			continue
 		}
 		c.Class("new_claim")
